@@ -21,8 +21,10 @@ Signatures (computed from the structure of the variant, never from messages):
   helper-law=<name>                     (a law of Props/C17.v fails on the real helper)
   <I> = '+'-joined subset of {multiline-stmt, py}: what the variant indents besides story lines (continuation lines of
         a multi-line ~ statement, the body of an @py: block)
-  <B> = '+'-joined subset of {leading-blank, ws-only-line}: blank-line shapes of the Python blocks of the witness
-        (first body line empty; some body line consisting of blanks/tabs only); present only on py-related styles
+  <B> = '+'-joined subset of {leading-blank, under-indented, ws-only-line}: shapes of the Python blocks of the witness
+        (first body line empty; some non-blank body line indented less than the block's first line - a continuation
+        line of a bracketed expression or a line of a triple-quoted string; some body line consisting of blanks/tabs
+        only); present only on py-related styles
 """
 from __future__ import annotations
 
@@ -184,12 +186,16 @@ def variants(story, base: G.Printed, comment="note"):
     kk = {k for k, _ in kinds}
     present = {"if": "@if" in kk, "for": "@for" in kk, "py": "@py:" in kk}
     has_join_block = any(l.ctx == "join" for l in base.lines)
+    # indenting the body of a Python block that has a line indented less than its first line is outside
+    # uniform_indent_invisible_partial (hypothesis well_indented; Props/C17.v gives the counterexample): not built.
+    # The legacy form of such a block and the indentation of the ENCLOSING @if/@for body are built.
+    skip_py_indent = G.has_under_indented_py(story)
     out = []
     for c in ("if", "for", "py"):
         if present[c]:
             out.append((G.Style(legacy=frozenset([c])), f"legacy:{c}"))
     for c in ("if", "for", "py"):
-        if present[c]:
+        if present[c] and not (c == "py" and skip_py_indent):
             for uname, unit in INDENT_UNITS:
                 out.append((G.Style(indent=((c, unit),)), f"indent:{c}:{uname}"))
     if has_join_block:
@@ -225,6 +231,7 @@ class Differential:
         self.per_style = {}     # style family -> [evaluated, failed]
         self.compiles = 0
         self.invalid = []
+        self.py_indent_not_built = 0   # stories whose indent:py variants are outside the theorem's hypothesis
 
     def outcome(self, story, style, base_res=None):
         """None when the variant compiles to the baseline's dict, else a description.
@@ -290,6 +297,7 @@ class Differential:
         varied = False
         comment = rng.choice(COMMENTS)
         todo = variants(story, base, comment)
+        self.py_indent_not_built += G.has_under_indented_py(story)
         leg, lt = legacy_trailing_variants(story, base, comment)
         for style, label in todo:
             sig = signature_of(story, style, label)
@@ -683,12 +691,25 @@ def run(tier: str, seed: int) -> int:
         "single- and multi-line ~ statements (lists, dicts, parenthesised sums with the operator first or last on the "
         "line, calls, nested and doubly-open brackets; // -> <> ^ inside the continuation lines) at top level and in "
         "@if/@for bodies and join blocks, Python blocks assembled from statements and compound statements with blank "
-        "lines first/last/in between and whitespace-only lines, nested @if/@for, jumps, choices, join sections, "
+        "lines first/last/in between and whitespace-only lines, Python blocks with an indented first line and continuation "
+        "lines of bracketed expressions / lines of triple-quoted strings indented less than it (top level and inside "
+        "@if/@for bodies), nested @if/@for, jumps, choices, join sections, "
         "@render/@input/@hook); each story printed in: legacy form per construct, body indentation per construct x "
         "{2sp,4sp,tab}, join indentation x {2sp,tab,6sp}, # comment lines per position, a trailing // comment per "
         "(line kind, context), trailing comments on the legacy forms, the pairs legacy:<c>+indent:<c> and "
         "legacy:py+indent:<enclosing>, # lines at column 0 in an indented @if/@for body, and random combinations of "
         "the parts that passed")
+    ui = {k: v for k, v in dist.items() if "under-indented" in k or "first-line-indented" in k}
+    chk.notes["under_indented_python_blocks"] = {
+        "family": "Python blocks written with an indented first line and later non-blank lines indented less "
+                  "(continuation lines of a bracketed expression / lines of a triple-quoted string; storygen."
+                  "gen_under_indented_py_block, valid Python after the documented dedent, checked with ast.parse)",
+        "blocks_by_shape_and_context": dict(sorted(ui.items())),
+        "compared": "legacy <<py vs @py:, indentation of the enclosing @if/@for body x {2sp,4sp,tab}, # comment lines, "
+                    "trailing comments, the pairs legacy:py+indent:<enclosing> and random combinations",
+        "stories_whose_indent:py_variants_are_not_built": diff.py_indent_not_built,
+        "why_not_built": "indenting the body of such a block is outside the hypothesis well_indented of "
+                         "uniform_indent_invisible_partial (Props/C17.v shows the hypothesis is necessary)"}
     chk.notes["baseline_invalid"] = len(diff.invalid)
     chk.notes["variants_not_built_because_known_finding"] = diff.skipped_known
     chk.notes["not_a_theorem"] = ("parse (print style s) independent of style is decided by the differential oracle only; "
@@ -702,6 +723,9 @@ def run(tier: str, seed: int) -> int:
         "style, so it is outside C17; the intact oracle does not judge statements in join blocks",
         "whitespace-only lines of a Python block and blank lines are printed as written under every indentation style "
         "(the reading of 'uniform indentation' of uniform_indent_invisible_partial in Props/C17.v)",
+        "the body of a Python block that contains a non-blank line indented less than its first line is not given an "
+        "indentation of its own (style indent:py): outside the hypothesis of uniform_indent_invisible_partial; its legacy "
+        "form and the indentation of the enclosing @if/@for body are compared",
         "a # comment line at column 0 is only generated in @if/@for bodies: inside a join block it ends the block "
         "by design of indentation-delimited blocks",
         "a top-level blank line directly after a join choice is not generated (its attribution to the block depends on "
